@@ -2,6 +2,7 @@
 # all_checks.sh [tier] : every registered check on /repo's current tree, one line each (rc, wall, drift); evidence is rewritten
 cd "$(dirname "$0")/.."
 TIER=${1:-quick}
+mkdir -p work
 for P in C01 C02 C03 C04 C05 C06 C07 C08 C09 C10 C11 C12 C13 C14 C15 C16 C17 C18; do
   s=$(date +%s)
   ./check $P --tier $TIER > work/all_$P.log 2>&1; rc=$?
